@@ -391,6 +391,7 @@ namespace ip {
 		}
 
 		int const remote = m_channel->remote_idx(m_bound_to);
+		ec.clear();
 		return m_channel->visible_ep[remote];
 	}
 
